@@ -1010,7 +1010,7 @@ SUBS = [
         "history",
         st_history,
         run_history,
-        quick=4800,
+        quick=4000,
         thorough=160000,
         rule=">= 1 duplicate/reversed construction pair, >= 1 effective removal and >= 1 index operation "
         "with an unsorted index array/list or a stepped slice (>= 2 atoms selected)",
@@ -1023,7 +1023,7 @@ SUBS = [
         "oor_index",
         st_oor,
         run_oor,
-        quick=2400,
+        quick=1600,
         thorough=64000,
         rule="the list holds >= 1 bond when the out-of-range index is fed",
         clauses="an atom index outside [-n, n) is rejected with IndexError, the list is unchanged, the "
